@@ -277,3 +277,22 @@ def run(ctx):
                               s["name"], matched, json.dumps(evx), "" if fin else " (did not finish)", " %s" % exc if exc else ""),
                           {"engine": "realrun", "scenario": s, "events": [t["op"] for t in tr][:300], "rejected_at": matched})
     ctx.extra["real_process_executions"] = {"count": len(rtraces), "events": sum(len(t) for t in rtraces)}
+
+
+def replay_witness(ctx, witness):
+    """--replay: the recorded scenario under the recorded schedule, judged by StorageObs.tla again."""
+    scen, schedule = witness.get("scenario"), witness.get("schedule")
+    if not scen or schedule is None or scen.get("pool") != "storage":
+        return None
+    h = Harness()
+    w = poolsim.Rec(h.execute(scen, S.scripted_chooser(schedule[1:] if schedule[:1] == ["main"] else schedule)))
+    tr = to_trace(w)
+    matched, total = tracecheck.validate(OBS, model.constants_block({"MaxId": 1}), [tr], ctx, "C14_replay")[0]
+    if matched != total or w.outcome != "ok" or w.any_exc is not None:
+        ev = tr[matched]["op"] if matched < total else None
+        ctx.violation({"kind": "schedule", "scenario": scen.get("name"), "event": ev and ev["op"], "outcome": w.outcome},
+                      "C14 (replay): scenario %s under the recorded schedule is rejected by the observer specification at event %d %s (outcome %s)"
+                      % (json.dumps(scen, sort_keys=True), matched, json.dumps(ev), w.outcome),
+                      {"engine": "simworld", "scenario": scen, "schedule": w.schedule, "rejected_at": matched})
+        return True
+    return False
